@@ -221,6 +221,35 @@ def kmergeAux {α : Type} (lt : α → α → Bool) (pick : List (QEntry α) →
 def kmerge {α : Type} (lt : α → α → Bool) (pick : List (QEntry α) → Nat) (q : List (QEntry α)) : List α :=
   kmergeAux lt pick (qsize q) q
 
+/-! ### The file buffers behind a queue entry
+
+`MergeQueue::Entry` (sort.hh:154-200) holds only `per_buffer` bytes of its run in memory and
+refills from the file (`Read`) when `current_` reaches `buffer_end_`.  `BufEntry` mirrors that;
+`bufEntry_step` (Proofs) shows it is a refinement of the `(current, rest)` view used above. -/
+
+/-- `buf` = the records from `current_` to `buffer_end_`; `file` = the `remaining_` records of the
+run still on disk. -/
+structure BufEntry (α : Type) where
+  buf : List α
+  file : List α
+  deriving Repr
+
+/-- `Entry::Read` with `cap = per_buffer / entry_size` records per buffer: `none` = returns false
+(nothing remains); otherwise the next `min(cap, remaining)` records are loaded. -/
+def BufEntry.read {α : Type} (cap : Nat) (file : List α) : Option (BufEntry α) :=
+  match file with
+  | [] => none
+  | _ :: _ => some ⟨file.take cap, file.drop cap⟩
+
+/-- `Entry::Increment`: advance `current_`; at the end of the buffer, `Read`. -/
+def BufEntry.increment {α : Type} (cap : Nat) (e : BufEntry α) : Option (BufEntry α) :=
+  match e.buf.drop 1 with
+  | [] => BufEntry.read cap e.file
+  | b :: bs => some ⟨b :: bs, e.file⟩
+
+/-- the `(current, rest)` view of a buffered entry -/
+def BufEntry.view {α : Type} (e : BufEntry α) : List α := e.buf ++ e.file
+
 /-- `queue.Push` of every non-empty run. -/
 def toQueue {α : Type} (runs : List (List α)) : List (QEntry α) :=
   runs.filterMap (fun r => match r with | [] => none | x :: xs => some (x, xs))
